@@ -19,7 +19,11 @@ CHECKS = {
                      'a fault state (resuming finished activities, foreign CancelTask, signals outside their wait/scope); the '
                      'witness programs (scope aborts, nested scopes, cancellation, until, cancel racing forced close) run on the '
                      'real code and TLC validates every trace against ObsC03: how run() ended (internal exception classes, '
-                     'livelock guard) and every signal seen by user code must belong to an open scope / the task itself.',
+                     'livelock guard) and every signal seen by user code must belong to an open scope / the task itself.  Added: TLC '
+                     'checks the liveness property Termination under weak fairness (no livelock in the design); random programs '
+                     'over the whole vocabulary run on the real code and TLC validates their traces against the monitor AND against '
+                     'the operational spec itself (USimT: every recorded trace must be a behaviour of USim); kernel-level traces of '
+                     'the repository test suite are validated against ObsK.',
                 note='Bounded programs; livelock is detected by an activation bound per time step in the harness; '
                      'classification of an exception as internal is by its class/arguments (harness exceptions carry integer ids).'),
     'C04': dict(obs='ObsC04', ref='4/C04',
@@ -47,8 +51,9 @@ CHECKS = {
                 text='TLC explores until(delay)/until(flag) (already true, set/reset in one step, nested, equal deadlines) racing '
                      'with completion, children and failures; replay on the real code; TLC validates against ObsC07: block ends '
                      'no later than the trigger time, never raises its own interrupt, no owner/child code after the trigger, no '
-                     'interrupt after completion.',
-                note='Bounded programs; notification kinds in this round: delay and flag (time conditions are covered by C01/C08 configs).'),
+                     'interrupt after completion, no interrupt before the trigger.  Random programs with until-blocks on decimal float '
+                     'dates entered at fractional times (dates mapped to ranks) and the whole-vocabulary corpus are validated too.',
+                note='Bounded programs; notification kinds: delay, flag, date conditions (time >= d, time == d).'),
     'C10': dict(obs='ObsC10', ref='4/C10',
                 text='TLC explores all programs of <=3 producers/consumers on a Queue (put/get/close, until-interrupts, cancel and '
                      'forced close at every boundary, including the read-mutex hand-over); witnesses replayed on the real Queue; '
@@ -91,7 +96,9 @@ CHECKS = {
                      'shares, Capacities and Resources) and explores increase/decrease/set, forced close (helper activities), '
                      'cancel and until at every boundary; replay on the real resources; TLC validates real traces against ObsC12: '
                      'levels never negative, level within [supply - everything out, supply - what the observer holds], level = '
-                     'supply - held at quiescence, claims decided on entry without waiting, no borrower starved, nested <= share.',
+                     'supply - held at quiescence, claims decided on entry without waiting, no borrower starved, nested <= share.  '
+                     'Seeded random tear-downs of several holders of one supply (failing / interrupted / cancelled scope) while the '
+                     'supply is changed, borrowed from and probed in the same time step are validated as well.',
                 note='One resource name, amounts 0..2. The leak after an interrupt during acquisition/release is an open known '
                      'finding (KF-C12-interrupted-transfer); other leaks are violations.'),
     'C14': dict(obs='ObsC14', ref='4/C14',
@@ -99,7 +106,8 @@ CHECKS = {
                      'the period, alone, next to other tickers and inside until) and emits witness programs; seeded random ticker '
                      'programs with dyadic periods and negative / non-zero start times are added; TLC validates the real traces '
                      'against ObsC14 (k-th tick on the grid, yields the current time, IntervalExceeded iff the body overran, delay '
-                     'pauses exactly p) and against ObsC20 (other runnable activities run between iterations).',
+                     'pauses exactly p) and against ObsC20 (other runnable activities run between iterations).  Ticker objects are '
+                     'also created ahead of the time at which they are first iterated.',
                 note='Periods and body durations are integers (model) or dyadic floats (random programs), so that the grid is '
                      'exact in floating point; negative periods are rejected by a separate direct call in the harness.'),
     'C16': dict(obs='ObsC16', ref='4/C16',
@@ -129,7 +137,8 @@ CHECKS = {
                      'nested run succeeding / failing and caught) and seeded random run sequences, sequentially and in 2-4 real '
                      'threads forced to overlap inside their simulations, into one lock-ordered trace; TLC validates each trace '
                      'against ObsC15 (root order and start, unchanged first exception, ActivityLeak, quiescence at return, '
-                     'time.now outside/inside, outer clock after nested runs, nothing after return, no foreign loop).',
+                     'time.now outside/inside, outer clock after nested runs, nothing after return, no foreign loop; runs ended by '
+                     '`till` with endless roots and non-zero / negative start times: nothing after the date, everything before it).',
                 note='OS thread interleavings are sampled (barrier-forced overlap plus switch interval 1e-5); TLC enumerates them '
                      'only at operation granularity in RunM.',
                 technique='TLA+ spec RunM model-checked by TLC; traces of real (threaded) runs validated by TLC against the TLA+ '
